@@ -37,6 +37,7 @@ EXPLANATION = ("a: the reachable set R is computed from the public parse entry p
                "advance their cursor on every path round the loop.")
 FLOORS = {"entry_points": 9, "sites": 150}
 EXPLANATION += " b (added): for every recursion cycle, depth bound x sum of dev-profile frame sizes (read from the object file's .stack_sizes section) fits half of a 2 MiB stack; the depth bound is the constant of a recognised depth guard whose counter grows on every cycle and is never reset inside it, a reviewed bound, or the 4 KiB input bound."
+EXPLANATION += " a (added): operator impls of date/time types (chrono, std::time: `+`, `-` panic on overflow) are panic-capable sites; `split_at`, `finder(s, SET) + 1` (SET a constant list of one-byte characters, the finder shown to report only positions of SET members), `a.or_else(|| b)` of two such finders and `pos..pos+k` are discharged by rule; offsets handed to a private helper by its only caller are judged with the caller's argument values. b: the depth guard may sit in a private helper that takes the recursive function by value (spliced in, indirect call devirtualised)."
 
 HERE = os.path.dirname(os.path.abspath(__file__))
 D = 40   # formatting depth for identity comparisons (no truncation)
